@@ -169,7 +169,7 @@ static long ro_base; /* wr_nlog when the record was last opened from the closed 
 static const char *family(const char *api, unsigned *bit)
 {
     static const struct { const char *pfx; const char *fam; } tab[] = {
-        {"VS", "VS"}, {"VH", "VS"}, {"V", "V"}, {"SDcreate", "SD-create"}, {"SDsetdim", "SD-dim"}, {"SDwritedata", "SD-data"}, {"SDsetcompress", "SD-data"},
+        {"VS", "VS"}, {"VH", "VS"}, {"V", "V"}, {"SDcreate", "SD-create"}, {"SDsetdim", "SD-dim"}, {"SDwritedata", "SD-data"}, {"SDwritechunk", "SD-data"}, {"SDsetcompress", "SD-data"},
         {"SDsetchunk", "SD-data"}, {"SDsetexternalfile", "SD-data"}, {"SD", "SD-attr"}, {"GR", "GR"}, {"AN", "AN"} };
     for (unsigned i = 0; i < sizeof tab / sizeof tab[0]; i++) if (strncmp(api, tab[i].pfx, strlen(tab[i].pfx)) == 0) { *bit = 1u << (i + 1); return tab[i].fam; }
     *bit = 1u; return NULL;
@@ -499,7 +499,7 @@ static void part_b(const char *path)
     for (int i = 0; i < nops; i++) {
         uint16 t, r; pick_tr(&t, &r, 0);
         int32 d2[2] = {3, 4}, st2[2] = {0, 0};
-        switch ((int)hk_range(0, 75)) {
+        switch ((int)hk_range(0, 78)) {
             /* ---- H */
             case 0: CALL("Hputelement", 1, Hputelement(fid, t, r, buf, 10)); break;
             case 1: { int32 a = (int32)CALL("Hstartwrite", 1, Hstartwrite(fid, t, r, 10)); if (a != FAIL) Hendaccess(a); } break;
@@ -592,6 +592,14 @@ static void part_b(const char *path)
             case 70: case 71: reopen_v(fid, vgref, vs_r, ibuf); break;
             case 72: case 73: reopen_vs(fid, vsref, buf, ibuf); break;
             case 74: reopen_ri(gr, buf, ibuf); break;
+            /* ---- whole-chunk I/O: SDwritechunk / GRwritechunk store a chunk through the chunk cache; on a read-only file they must be refused
+               (a data set or image that is not chunked refuses them anyway) */
+            case 76: { HDF_CHUNK_DEF cd_; int32 fl_ = 0, org[4] = {0, 0, 0, 0}; memset(&cd_, 0, sizeof cd_);
+                       if (sds != FAIL && SDgetchunkinfo(sds, &cd_, &fl_) != FAIL) { static uint8 cb_[65536]; memset(cb_, 0x5a, sizeof cb_);
+                           CALL("SDwritechunk", 1, SDwritechunk(sds, org, cb_)); if (fl_ != HDF_NONE) CALL("SDreadchunk", 0, SDreadchunk(sds, org, cb_)); } } break;
+            case 77: { HDF_CHUNK_DEF cd_; int32 fl_ = 0, org[2] = {0, 0}; memset(&cd_, 0, sizeof cd_);
+                       if (ri != FAIL && GRgetchunkinfo(ri, &cd_, &fl_) != FAIL) { static uint8 cb_[65536]; memset(cb_, 0x5a, sizeof cb_);
+                           CALL("GRwritechunk", 1, GRwritechunk(ri, org, cb_)); } } break;
             default: reopen_sds(sd, nsds, ibuf); break;
         }
     }
